@@ -13,6 +13,13 @@
 (*   Sync   hs, opts, stored[]         Chain::sync_block_headers            *)
 (*   Block  h, opts, stored            Chain::process_block                 *)
 (*   Read   h, now                     deserialize::<UntrustedBlockHeader>  *)
+(*   Wire   w, hs, now0, now1, opts,   a message of wrapping w read by the  *)
+(*          stored[]                   real Untrusted* reader, then the     *)
+(*                                     adapter's pipeline call              *)
+(* The reader consults the wall clock at some instant between now0 and now1 *)
+(* (whole seconds, logged just before / after the read); ReadCheck is       *)
+(* monotone in the clock, so the verdict must be the one the specification  *)
+(* yields for now0 or for now1.                                             *)
 (* `stored` = get_block_header(hash) succeeds after the call.               *)
 (***************************************************************************)
 EXTENDS Header, TLC, Json, IOUtils
@@ -58,7 +65,17 @@ TRead == /\ IsEvent("Read")
          /\ \E res \in {ReadCheck(E.h, E.now)} :
                ReadUntrusted(E.h, E.now, res) /\ E.verdict = Cls(res)
 
-TNext == TReset \/ THeader \/ TSync \/ TBlock \/ TRead
+TWire == /\ IsEvent("Wire")
+         /\ OptsOK /\ E.w \in Wrappings /\ Opts \in WireOpts(E.w)
+         /\ Len(E.hs) >= 1 /\ (E.w # "Headers" => Len(E.hs) = 1)
+         /\ E.now0 <= E.now1
+         /\ \E now \in {E.now0, E.now1} :
+              \E res \in {WireRead(E.hs, now), "ok", "body_mismatch", "orphan", PowOnly(E.hs[1]),
+                          ProcessHeaderRes(E.hs[1], known, Opts), SyncRes(E.hs, known, Opts)} :
+                 Receive(E.w, E.hs, now, Opts, res) /\ E.verdict = Cls(res)
+         /\ \A i \in DOMAIN E.hs : E.stored[i] = Has(E.hs[i])
+
+TNext == TReset \/ THeader \/ TSync \/ TBlock \/ TRead \/ TWire
 TSpec == TInit /\ [][TNext]_tvars
 
 Accepted == LET d == TLCGet("stats").diameter IN
